@@ -102,5 +102,9 @@ func ToString(err *Error) string {
 }
 
 func space(l int) string {
+	if l < 0 {
+		// both identifiers of a path element may be empty (e.g. "goverter:map A. B")
+		l = 0
+	}
 	return strings.Repeat(" ", l)
 }
